@@ -466,6 +466,27 @@ def rule_alloc_chain(chk, prog, tier):
     r.exhaustive = False
 
 
+# ------------------------------------------------------------------ C03.m the mnemonic table
+
+def rule_mnemonics(chk, prog, tier):
+    r = chk.rule('C03.m', 'every instruction kind is printed with the QBE mnemonic its enumerator names (ops.h: IEXTUH is printed `extuh`, ICSLTW `csltw`, ...): the lowering decides on enumerators, the backend reads the text', floor=80,
+                 oracle='QBE IL reference, instruction index; cproc names its enumerators I + the mnemonic in upper case')
+    from eai import Interp, read_cstr
+    it = Interp(prog)
+    tab = it.gobj('instname')
+    names = cmodel.instnames(prog)
+    n = 0
+    for v, en in sorted(names.items()):
+        if en in ('INONE', 'IARG', 'IVARARG'): continue        # IARG / IVARARG are markers inside a call's argument list, never printed by name (C03.j decides how they are printed)
+        p = tab.f.get((v,))
+        sp = bytes(read_cstr(it, p)).decode() if isinstance(p, Ptr) else None
+        n += 1
+        r.instance(sp == en[1:].lower(), 'mnemonic:%s' % en, 'ops.h', 'the instruction %s is printed as %r; QBE calls it %r' % (en, sp, en[1:].lower()))
+    if n < 80:
+        raise AnalysisBroken('only %d instruction kinds found' % n)
+    r.exhaustive = True
+
+
 # ------------------------------------------------------------------ C03.j the printer
 
 def rule_printer(chk, prog, tier):
@@ -606,6 +627,7 @@ def run(chk, tier):
     chk.guard('C03.j', lambda: rule_printer(chk, prog, tier))
     chk.guard('C03.k', lambda: rule_block_chain(chk, prog, tier))
     chk.guard('C03.l', lambda: rule_alloc_chain(chk, prog, tier))
+    chk.guard('C03.m', lambda: rule_mnemonics(chk, prog, tier))
     from props import c07
     chk.guard('C07.b', lambda: c07.rule_emitdata(chk, prog, tier))          # a data definition has exactly the size of the object: items and zero padding add up
     from props import c09
